@@ -112,8 +112,11 @@ def _gen_design_client(r, scale_exp, family):
             ops.append({"op": "legal_verdicts"})
         elif k < 89:
             ops.append({"op": "legal_time", "amount": r.choice([1, 5, 30])})
-        elif k < 95:
+        elif k < 93:
             ops.append({"op": "load_net", "via": via()})
+        elif k < 97:
+            # writing a document is an operation too: its text must not depend on what the process wrote before
+            ops.append({"op": "dump", "what": r.choice(["alloc", "alloc", "net", "die"])})
         else:
             ops.append({"op": "strop", "matrix": _gen_matrix(r)})
     if any(o["op"] == "legal_model" for o in ops) and r.chance(0.7):
@@ -508,6 +511,11 @@ class _DesignClient:
             desc = _norm_alloc(o["alloc"])
             self.alloc = A.Allocation(self._src(designs.alloc_tree(desc), o["via"], "alloc"))
             return sem.alloc_sem(self.alloc)
+        if k == "dump":
+            obj = {"alloc": self.alloc, "net": self.net, "die": self.die}[o["what"]]
+            if obj is None:
+                return "skipped"
+            return {"text": obj.write_yaml()}
         if k == "load_bad_alloc":
             u = self.co.f(1)
             if o["how"] == "overlap":
